@@ -126,8 +126,11 @@ def main():
     ev = dict(property_id=a.prop, tier=a.tier, seed=seed, level='proof', coverage=cov,
               assumptions=meta.get('assumptions', []), wall_s=round(time.time() - ctx.t0, 2),
               violations=len(ctx.failing) + (1 if rc and not ctx.failing else 0))
-    os.makedirs(os.path.join(VERIF, 'evidence'), exist_ok=True)
-    with open(os.path.join(VERIF, 'evidence', a.prop + '.json'), 'w') as f:
+    # self-test runs against a scratch copy (VERIF_REPO) never touch the real evidence files
+    repo = os.environ.get('VERIF_REPO', '/repo')
+    evdir = os.path.join(VERIF, 'evidence') if os.path.realpath(repo) == '/repo' else os.path.join(repo, '.verif-evidence')
+    os.makedirs(evdir, exist_ok=True)
+    with open(os.path.join(evdir, a.prop + '.json'), 'w') as f:
         json.dump(common.jsonable(ev), f, indent=1, default=str)
     for l in lines:
         print(l)
